@@ -190,6 +190,7 @@ def judge(ctx, v, text, ok_v, ok_38, origin):
             anc, val = _ancestors(m, err.start_pos)
             _nl = err.get_last_leaf().get_next_leaf() if hasattr(err, 'children') else err.get_next_leaf()
             common = dict(common, err_end_line=err.end_pos[0], next_leaf_line=_nl.start_pos[0] if _nl is not None else None)
+            common['err_span_text'] = ''.join(lines[err.start_pos[0] - 1:(_nl.start_pos[0] if _nl is not None else err.end_pos[0])])[:400]
             ctx.violation('a_error_node', 'CPython %s and 3.8 compile it, parso(%s) has %s at %s: %r' % (
                 v, v, err.type, err.start_pos, err.get_code()[:60]), w, sense='a', line=err.start_pos[0],
                 line_text=lines[err.start_pos[0] - 1][:120] if err.start_pos[0] - 1 < len(lines) else '', ancestors=anc,
